@@ -709,6 +709,7 @@ func (c *client) loopWrite() {
 				return
 			case c.processingReqs <- askingReq:
 			}
+			verifhook.At2("client.loopWrite.asked", c, req)
 		}
 
 		err = c.enc.Encode(req.Body())
